@@ -16,7 +16,7 @@ pub static PROP: Prop = Prop {
     rule: "cases = (input, list incl. fitted lists, one of the 63 non-empty mode subsets with extra weight on singletons / sets without ASCII / complements of one mode, macro flag); oracle = every latch the mode-tracking reference decoder finds names an enabled mode, and with ASCII disabled ASCII-carried characters appear only as the standard's end-of-data fallback (last segment, directly after a C40/Text/X12/EDIFACT latch or run, only padding behind, and no more than that mode's own end-of-data rule can leave: after C40/Text one character or one digit pair, after X12 at most two characters, after EDIFACT at most four characters in at most two codewords); the same oracle is applied to the stream of the string entry point encode_str when the input is valid UTF-8; non-trivial = mode set != all AND stream has >= 1 latch; distinct by (input, configuration)",
     assumptions: &["pad, unlatch, macro, FNC1 and ECI codewords are not 'use of ASCII mode'", "the fallback rule is the widest reading of 'the final few characters': EDIFACT's <= 2 codewords (<= 4 digits), C40/Text rules c/d, and X12's 'unlatch and encode the remaining one or two characters in ASCII' (5.2.7.2; up to 4 codewords with upper shift)"],
     extra: super::no_extra,
-    fuzz_runs: 50000,
+    fuzz_runs: 200000,
 };
 
 /// the structural oracle on one decoded stream
